@@ -1,5 +1,6 @@
 import KoordVerif.Common.Proto
 import KoordVerif.Model.C15
+import KoordVerif.Model.C15Inf
 /-
 Driver for C15.  One case = one history.  Op lines (integer tokens, `_` = resource key absent / no label):
   add <name> <parentCode> <isParentCode> <tree> <forceCode> <rootCode> <swShape> <listErr>
@@ -12,6 +13,12 @@ The codes are RAW shapes of the object (Model: `Raw`, `decodeQI`, `decodeOp`): p
 1 negative / 2 malformed / 3 non-negative / 4 ""; nsShape 0 canonical / 1 other spelling / 2 malformed.
   compact                 (from here on: one observation line per request, parts joined by " | ")
   try <add|upd|del ...>   (evaluate on the current state, print, do NOT commit)
+  echo <0|1>              (1: from here on the informer event of every ADMITTED request is delivered to the handlers
+                           OnQuotaAdd / OnQuotaUpdate / OnQuotaDelete of the admitting replica right after the admission;
+                           Model/C15Inf.lean `stepEcho`)
+  two                     (two webhook replicas behind one API server, Model/C15Inf.lean `Sys` / `sysStep` with the
+                           unfiltered handler registration; after every request: `res`, `rep0` + dump, `rep1` + dump)
+  rep <0|1>               (two-replica mode: the replica that handles the following requests)
 After every op: `res <0|1>`, then the recorded topology:
   `q <name> <parent> <isParent> <tree> <force> <treeRoot> <min>*3 <max>*3` (by name),
   `h <key> <child>*` (by key, children sorted), `n <ns> <quota>` (by ns).
@@ -118,25 +125,58 @@ def showRes (compact : Bool) (r : Topo × Bool) : List String :=
   let ls := s!"res {b2i r.2}" :: dump r.1
   if compact then [" | ".intercalate ls] else ls
 
+/-- driver state: one replica `s` (with or without informer echo) or the two-replica system `sys`. -/
+structure DS where
+  s : Topo := init
+  compact : Bool := false
+  echo : Bool := false
+  two : Bool := false
+  sys : Sys := sysInit
+  rep : Bool := false
+
+/-- one raw request on one replica, with the informer echo when switched on. -/
+def stepRawE (echo : Bool) (s : Topo) (r : RawOp) : Topo × Bool :=
+  if echo then
+    match decodeOp s r with
+    | none => (s, false)
+    | some op => stepEcho dims s op
+  else stepRaw dims s r
+
+/-- one raw request handled by replica `rep` of the two-replica system (handlers registered unfiltered). -/
+def sysStepRaw (σ : Sys) (rep : Bool) (r : RawOp) : Sys × Bool :=
+  match decodeOp2 (if rep then σ.b else σ.a) σ.api r with
+  | none => (σ, false)
+  | some op => sysStep dims (fun _ => true) σ rep op
+
+def showSys (r : Sys × Bool) : List String :=
+  s!"res {b2i r.2}" :: "rep0" :: dump r.1.a ++ "rep1" :: dump r.1.b
+
 /-- `compact` switches to one-line dumps; `try <request>` evaluates a request on the current state
     WITHOUT committing it (the harness rebuilds the real topology from the committed prefix). -/
-def runLines : Topo → Bool → List String → List String
-  | _, _, [] => []
-  | s, c, l :: ls =>
+def runLines : DS → List String → List String
+  | _, [] => []
+  | st, l :: ls =>
     match toks l with
-    | ["compact"] => runLines s true ls
+    | ["compact"] => runLines { st with compact := true } ls
+    | ["echo", v] => runLines { st with echo := v != "0" } ls
+    | ["two"] => runLines { st with two := true } ls
+    | ["rep", v] => runLines { st with rep := v != "0" } ls
     | "try" :: rest =>
       match parseToks rest with
-      | none => "bad-op" :: runLines s c ls
-      | some op => showRes c (stepRaw dims s op) ++ runLines s c ls
+      | none => "bad-op" :: runLines st ls
+      | some op => showRes st.compact (stepRawE st.echo st.s op) ++ runLines st ls
     | ts =>
       match parseToks ts with
-      | none => "bad-op" :: runLines s c ls
+      | none => "bad-op" :: runLines st ls
       | some op =>
-        let r := stepRaw dims s op
-        showRes c r ++ runLines r.1 c ls
+        if st.two then
+          let r := sysStepRaw st.sys st.rep op
+          showSys r ++ runLines { st with sys := r.1 } ls
+        else
+          let r := stepRawE st.echo st.s op
+          showRes st.compact r ++ runLines { st with s := r.1 } ls
 
-def runCase (lines : List String) : List String := runLines init false lines
+def runCase (lines : List String) : List String := runLines {} lines
 
 end KoordVerif.C15
 
